@@ -63,6 +63,58 @@ def resolve(fn, e, use, pm, depth=0):
     return e
 
 
+def _list_builder(fn, name, init, use, pm):
+    """`name = []` (statement init) followed in the same block by `for T in IT: [if C:] name.append(E)` -- and nothing else touching
+    the list before `use` -- is the comprehension [E for T in IT if C]; returns that comprehension (a fresh node) or None."""
+    par = pm.get(id(init))
+    blk = next((b for b in astq._blocks(par) if any(init is s for s in b)), None) if par is not None else None
+    if blk is None:
+        return None
+    i = next(k for k, s in enumerate(blk) if s is init)
+    loop = None
+    for s in blk[i + 1:]:
+        mentions = any(isinstance(x, ast.Name) and x.id == name for x in ast.walk(s))
+        if not mentions:
+            if any(s is a or any(x is use for x in ast.walk(s)) for a in [use]):
+                break
+            continue
+        if loop is None and isinstance(s, (ast.For,)) and not s.orelse and len(s.body) == 1:
+            loop = s
+            continue
+        break
+    if loop is None or any(x is use for x in ast.walk(loop)) or position(loop) > position(use):
+        return None
+    b, ifs = loop.body[0], []
+    while isinstance(b, ast.If) and not b.orelse and len(b.body) == 1:
+        ifs.append(b.test)
+        b = b.body[0]
+    if not (isinstance(b, ast.Expr) and isinstance(b.value, ast.Call) and isinstance(b.value.func, ast.Attribute) and b.value.func.attr == 'append'
+            and isinstance(b.value.func.value, ast.Name) and b.value.func.value.id == name and len(b.value.args) == 1):
+        return None
+    if any(isinstance(x, ast.Name) and x.id == name for e_ in [b.value.args[0], loop.iter] + ifs for x in ast.walk(e_)):
+        return None
+    if any(isinstance(x, (ast.Await, ast.Yield, ast.NamedExpr)) for x in ast.walk(loop)):
+        return None
+    # no other statement between the initialisation and the use touches the list
+    for c in iter_nodes(fn.node):
+        if isinstance(c, ast.Name) and c.id == name and position(init) < position(c) < position(use) and not any(x is c for x in ast.walk(loop)) \
+                and not any(x is c for x in ast.walk(init)):
+            p_ = pm.get(id(c))
+            if astq.exclusive(init, c, pm, stop=fn.node):
+                continue               # in another branch: not on a path from this initialisation
+            if not isinstance(c.ctx, ast.Load):
+                return None
+            if isinstance(p_, ast.Attribute) and p_.attr in ('append', 'extend', 'insert', 'pop', 'remove', 'clear', 'sort', 'reverse'):
+                return None
+            if isinstance(p_, ast.Subscript) and not isinstance(p_.ctx, ast.Load):
+                return None
+    tnames = {x.id for x in ast.walk(loop.target) if isinstance(x, ast.Name)}
+    later = [x for x in iter_nodes(fn.node) if isinstance(x, ast.Name) and x.id in tnames and isinstance(x.ctx, ast.Load) and not any(y is x for y in ast.walk(loop))]
+    comp = ast.ListComp(elt=copy.deepcopy(b.value.args[0]),
+                        generators=[ast.comprehension(target=copy.deepcopy(loop.target), iter=copy.deepcopy(loop.iter), ifs=[copy.deepcopy(c) for c in ifs], is_async=0)])
+    return ast.copy_location(comp, loop)
+
+
 def expand(fn, e, use, pm, depth=0):
     """Copy of e in which local names with a single reaching plain definition are replaced by that definition
     (recursively), as long as the definition is call-free arithmetic / attribute access.  Names bound by a comprehension
@@ -75,6 +127,10 @@ def expand(fn, e, use, pm, depth=0):
             if not isinstance(n.ctx, ast.Load) or depth > 6 or any(n.id in b for b in self.bound):
                 return n
             ds = reaching_definitions(fn.node, n.id, use, pm)
+            if len(ds) == 1 and ds[0][1] is not None and ds[0][2] == 'assign' and isinstance(ds[0][1], ast.List) and not ds[0][1].elts:
+                comp = _list_builder(fn, n.id, ds[0][0], use, pm)
+                if comp is not None:
+                    return expand(fn, comp, use, pm, depth + 1)
             if len(ds) == 1 and ds[0][1] is not None and ds[0][2] == 'assign':
                 v = ds[0][1]
                 if not any(isinstance(x, (ast.Await, ast.Yield, ast.Lambda)) for x in ast.walk(v)) and not any(
